@@ -64,7 +64,8 @@ def P_secgrp_ops(family_index):
             secexp = rt.SecFld(modulus=group.order)
             try:
                 k1 = rnd.randrange(0, group.order)
-                add('repeat(a, [k])', secgrp.repeat(a, secexp(k1)), group.repeat(a, k1))          # public base, secret exponent (per-party shares)
+                kx = rt.input(secexp(k1), senders=0)          # dealt by party 0: a non-constant sharing (secexp(k1) alone is a constant polynomial)
+                add('repeat(a, [k])', secgrp.repeat(a, kx), group.repeat(a, k1))          # public base, secret exponent (per-party shares)
             except Exception as ex:      # noqa
                 add('repeat-secret-exponent raised ' + type(ex).__name__, x, None)
         outs = await rt.output(ops)
@@ -95,15 +96,36 @@ def P_secgrp_exp(family_index):
         k1 = rnd.randrange(0, n); k2 = rnd.choice([0, 1, 2, 3, 7, 100, 32767])
         got, want = [], []
         def chk(tag, o, w): got.append((tag, _plain(group, o) == _plain(group, w) or o == w)); want.append((tag, True))
-        chk('a^[k] field exponent', await rt.output(secgrp.repeat(a, secfld(k1))), group.repeat(a, k1))
-        chk('a^[-k] field exponent', await rt.output(secgrp.repeat(a, -secfld(k2))), group.repeat(a, -k2))
-        chk('[x]^[k] field exponent', await rt.output(secgrp.repeat(x, secfld(k2))), group.repeat(a, k2))
-        chk('a^[k] secure-int exponent', await rt.output(secgrp.repeat(a, secint(k2))), group.repeat(a, k2))
-        chk('[x]^[k] secure-int exponent', await rt.output(secgrp.repeat(x, secint(k2))), group.repeat(a, k2))
-        chk('repeat_public(a, [k])', await secgrp.repeat_public(a, secfld(k1)), group.repeat(a, k1))
-        chk('repeat_public([a, g], [k1, k2])', await secgrp.repeat_public([a, g], [secfld(k1), secfld(k2)]), group.operation(group.repeat(a, k1), group.repeat(g, k2)))
+        # exponents DEALT by party 0 (non-constant sharings: with a constant such as secfld(k) every party holds the same share and a wrong
+        # recombination coefficient cannot show)
+        f1 = rt.input(secfld(k1), senders=0); f2 = rt.input(secfld(k2), senders=0); i2 = rt.input(secint(k2), senders=0)
+        chk('a^[k] field exponent', await rt.output(secgrp.repeat(a, f1)), group.repeat(a, k1))
+        chk('a^[-k] field exponent', await rt.output(secgrp.repeat(a, -f2)), group.repeat(a, -k2))
+        chk('[x]^[k] field exponent', await rt.output(secgrp.repeat(x, f2)), group.repeat(a, k2))
+        chk('[x]^[k] secure-int exponent', await rt.output(secgrp.repeat(x, i2)), group.repeat(a, k2))
+        chk('repeat_public(a, [k])', await secgrp.repeat_public(a, f1), group.repeat(a, k1))
+        chk('repeat_public([a, g], [k1, k2])', await secgrp.repeat_public([a, g], [f1, f2]), group.operation(group.repeat(a, k1), group.repeat(g, k2)))
         return got, want, [], None, (name, _plain(group, a), k1, k2)
     return prog
 
 
-PROGRAMS = dict(secgrp_ops=P_secgrp_ops, secgrp_exp=P_secgrp_exp)
+def P_secgrp_expint(family_index):
+    """public base, exponent a dealt SECURE INTEGER (its own program: the one call site of a listed known finding)"""
+    name = FAMILIES[family_index % len(FAMILIES)]
+
+    async def prog(rt, seed):
+        rnd = pyrandom.Random(seed)
+        group = _group(name)
+        secgrp = rt.SecGrp(group)
+        g = group.generator
+        a = group.repeat(g, rnd.randrange(1, min(group.order, 1 << 30)))
+        secint = rt.SecInt(16)
+        k2 = rnd.choice([1, 2, 3, 7, 100, 32767])
+        i2 = rt.input(secint(k2), senders=0)
+        o = await rt.output(secgrp.repeat(a, i2))
+        w = group.repeat(a, k2)
+        return [('a^[k] secure-int exponent', _plain(group, o) == _plain(group, w))], [('a^[k] secure-int exponent', True)], [], None, (name, _plain(group, a), k2)
+    return prog
+
+
+PROGRAMS = dict(secgrp_ops=P_secgrp_ops, secgrp_exp=P_secgrp_exp, secgrp_expint=P_secgrp_expint)
